@@ -517,6 +517,8 @@ def gen_call(rng, fn):
             el = dict(pos=pos, items=others)
         elif m == "field":
             el = dict(other=(rng.choice(TEXTS) if k == "Z" else rng.choice(ZS)))
+        elif m == "var" and k in ("ZL", "TL") and len(v[1]) >= 2 and rng.random() < 0.6:
+            el = dict(grown=True)   # built by appending: capacity > length
         args.append(dict(mode=m, value=v, extra=el))
     use = "bind"
     if fn["ret"] is not None:
@@ -572,7 +574,12 @@ def build_caller(group, in_function):
                     argx.append(ddp_expr(v))
                     temp = not KINDS[k]["prim"]
                 elif m == "var":
-                    decl.append("%s %s ist %s." % (KINDS[k]["decl"], nm, ddp_expr(v, top=True)))
+                    if a.get("extra") and a["extra"].get("grown"):
+                        decl.append("%s %s ist %s." % (KINDS[k]["decl"], nm, ddp_expr([k, v[1][:1]], top=True)))
+                        for e_ in v[1][1:]:
+                            decl.append("Speichere %s verkettet mit %s in %s." % (nm, ddp_expr(["Z" if k == "ZL" else "T", e_]), nm))
+                    else:
+                        decl.append("%s %s ist %s." % (KINDS[k]["decl"], nm, ddp_expr(v, top=True)))
                     argx.append(nm)
                     varname[i] = nm
                     dumps.append([nm, k, nm, after, i])
@@ -859,6 +866,8 @@ def header_probe(b, sc, model):
     types the model says. Returns error text or None."""
     q = "".join("TY %s\n" % KINDS[k]["ty"] for k in ALLK)
     out = subprocess.run([model], input=q, capture_output=True, text=True, timeout=60).stdout.splitlines()
+    if len(out) != len(ALLK) or not all(l.startswith("TY ") for l in out):
+        return "the extracted model driver gave no representation table"
     ctext = {k: l.split(" | ")[1] for k, l in zip(ALLK, out)}
     names = {"struct{char*;int64_t;}": "ddpstring", "struct{ddpvtable*;union{void*;uint8_t[16];};}": "ddpany"}
 
@@ -1248,9 +1257,19 @@ def main():
     groups = [fns[i:i + per_group] for i in range(0, len(fns), per_group)]
     jobs = []
     gi = 0
-    for spec in load_corpus():
-        gi += 1
-        jobs.append((gi, spec["functions"], spec["in_function"], dict(decl=[0, 2], **{"import": [0, 2]}), False))
+    # corpus of minimised past failures first (packed into groups, functions renamed)
+    for inf in (False, True):
+        cf = []
+        for spec in load_corpus():
+            if bool(spec.get("in_function")) == inf:
+                for fn in spec["functions"]:
+                    fn = dict(fn)
+                    fn["name"] = "k_%d" % (len(cf) + 1)
+                    cf.append(fn)
+        for i in range(0, len(cf), per_group):
+            gi += 1
+            jobs.append((gi, cf[i:i + per_group], inf, dict(decl=[0, 2], **{"import": [0, 2]}), False))
+        stats["corpus_functions"] = stats.get("corpus_functions", 0) + len(cf)
     for n, grp in enumerate(groups):
         gi += 1
         if ck.quick:
@@ -1277,12 +1296,17 @@ def main():
         ck.broken_obligation("the caller-side releases do not follow the model's call plan (the direct ownership judgement holds): " + stats["model_ledger_disagreements"][0],
                              "\n".join(stats["model_ledger_disagreements"][:10]))
     ck.cov.update(dict(
-        signatures=len(stats["sigs"]), functions=len(fns), groups=len(groups), executed_programs=stats["runs"], ledger_events=stats["ledger_events"],
+        signatures=len(stats["sigs"]), functions=len(fns), corpus_functions=stats.get("corpus_functions", 0), skipped_groups=stats.get("skipped_groups", 0), groups=len(groups), executed_programs=stats["runs"], ledger_events=stats["ledger_events"],
         model_cases=stats["model_cases"], ir_signatures_compared=stats["ir_compared"], arity=dict(sorted(stats["arity"].items())),
         param_kinds=dict(sorted(stats["param_kinds"].items())), ret_kinds=dict(sorted(stats["ret_kinds"].items())), exhaustive=False,
         rule="evaluation = one executed extern call (2 calls per function, both modules, per opt level); distinct non-trivial = distinct (signature, argument modes and values, result use); every call passes at least the call itself through the C callee and the ledger; systematic part: arity 0 with every result kind, arity 1 and last-of-2 with every kind by value and by Referenz; random part arity 2..6; argument modes literal/temporary, variable, list element, Kombination field, same variable by value and by Referenz; result bound, consumed inline or dropped; callers at top level and inside a function"))
+    ck.sample(dict(signature="ret=NT params=v:T,r:B", call='Der Byte b ist (255 als Byte). Der Titel r ist (f "x" b).', expect="out-slot first, Text copy claimed from the literal and released by args[1+1] after the call (the +1 of the free loop), b mutated through the pointer"))
+    ck.sample(dict(signature="ret=T params=-", module="importing", expect="declare void @f(%ddpstring*) also through declareImportedFuncDecl; result Text owned by the caller and released once"))
     ck.sample(dict(signature="ret=T params=v:Z,r:TL,v:P", call="f (-1) tl (ein Paar aus 0 und \"häß€😀\")", expect="callee prints -1, the list, the Paar; tl replaced through the reference; copy of the Paar released after the call"))
-    ck.finish()
+    ck.finish(explanation="All five theorems of Props/C18.v are full (no _partial/_refuted): C18_sig_lowering_is_abi (both declaration sites, every signature/arity, "
+              "ABI-class equality with the published C signature), C18_published_convention, C18_extern_call_ownership (the emitted plan runs without ownership error for every "
+              "signature and temporary/variable mix; by-value non-primitive arguments copied/claimed before and released exactly once after; result owned), C18_reference_untouched, "
+              "C18_extern_not_mangled. No defect of the pinned tree was found for this property.")
 
 
 if __name__ == "__main__":
